@@ -381,11 +381,11 @@ Definition lead (wrote : bool) : bytes := if wrote then [10%N] else [].
 
 (* a stand-alone comment: a blank line in front unless it is the first entry, the lines, a blank line *)
 Lemma serialize_simple_free_comment wrote ls P x :
-  hash_prefix P -> simple_comment (Comment ls) = true -> at_line_start x -> indent_level x = 0 ->
+  hash_prefix P -> forallb simple_comment_line ls = true -> at_line_start x -> indent_level x = 0 ->
   serialize_free_comment wrote (Comment ls) P x =
   Done (Writer (rev (lead wrote ++ comment_text P ls ++ [10%N]) ++ rbuf x) 0).
 Proof.
-  intros HP Hc Hs Hl. destruct (simple_comment_spec ls Hc) as [Hlines _].
+  intros HP Hlines Hs Hl.
   unfold serialize_free_comment.
   assert (H1 : exists x1, (if wrote then newline else wskip) x = Done x1 /\ at_line_start x1 /\ indent_level x1 = 0 /\
                           rbuf x1 = rev (lead wrote) ++ rbuf x).
@@ -422,7 +422,7 @@ Proof.
   intros He Hs Hl.
   destruct e as [id [p|] attrs [|]|id p attrs [|]|[ls]|[ls]|[ls]|]; try discriminate; cbn [plain_entry] in He.
   4-6: (unfold serialize_entry; cbn [is_junk negb orb]; rewrite orb_true_r;
-        rewrite serialize_simple_free_comment by (try exact He; try assumption; unfold hash_prefix; auto);
+        rewrite serialize_simple_free_comment by (try exact (proj1 (simple_comment_spec _ He)); try assumption; unfold hash_prefix; auto);
         reflexivity).
   all: apply andb_prop in He as [He Hattrs]; apply andb_prop in He as [Hid Hp];
     destruct (wf_identifier_last id Hid) as (i0 & ib & Eid & Hib10 & Hib13).
